@@ -957,6 +957,7 @@ class error_residual_std(ErrorEstimator):
         output_scale = observed.residual_whitened_rms_tree(zeros)
         observed = observed.rescale_cholesky(output_scale)
         error = observed.std
+        num_residual_parts = len(tree.tree_leaves_depth_one(error))
         error, _ = tree.ravel_pytree(error)
 
         # Compute a reference
@@ -979,7 +980,10 @@ class error_residual_std(ErrorEstimator):
         if self.error_per_unit_step:
             n += 1
 
-        if error.shape not in [(1,), reference.shape]:
+        # Constraints with several parts (e.g., jet-extended ODEs, DAEs) are rejected
+        # even if the number of parts happens to match the shape of the reference.
+        shapes_match = error.shape in [(1,), reference.shape]
+        if num_residual_parts != 1 or not shapes_match:
             msg = f"The error-estimate and reference have different shapes ({error.shape} vs {reference.shape})."
             msg += (
                 " This is typically caused by using the residual-based error estimator"
